@@ -1,12 +1,12 @@
 SPECIFICATION MCSpec
 CONSTANTS N = 3
  V = 2
- DropVerify = "attestation"
+ DropVerify = "none"
  SkipPropMatch = FALSE
  SkipGater = FALSE
  UseSenderIdx = FALSE
  SwapEpochFor = "none"
- SignedGater = FALSE
+ SignedGater = TRUE
  InnerProofPolicy = "reject"
  VCBatchPolicy = "none"
 INVARIANTS TypeOK OnlyValidEnter ValidEnters PeerAllOrNothing
